@@ -89,6 +89,8 @@ class World:
         self.futures = {}  # bare futures created by workchain steps, by id
         self.children = []  # child processes launched by steps
         self.exec_stack = []  # processes currently inside a nested child.execute() (innermost last)
+        self.label_by_pid = False  # label unlabelled processes by their pid (launcher checks)
+        self.instances = []  # every process instance that went through init() (constructed or loaded)
         self.child_by_index = {}
 
     def rec(self, *event):
@@ -107,7 +109,14 @@ class World:
 
 
 def label(proc):
-    return getattr(proc, '_sim_label', None) or 'p'
+    explicit = getattr(proc, '_sim_label', None)
+    if explicit:
+        return explicit
+    world = getattr(type(proc), '_world', None)
+    if world is not None and world.label_by_pid and getattr(proc, '_pid', None) is not None:
+        serial = getattr(proc, '_sim_instance', None)
+        return f'pid:{proc._pid}' if serial is None else f'pid:{proc._pid}#{serial}'
+    return 'p'
 
 
 def _do_effect(proc, world, eff, plumpy):
@@ -299,6 +308,14 @@ def build_process_class(program, world, plumpy, hooks=True, record_calls=True):
         world.site(self, 'init')
 
     namespace['__init__'] = __init__
+
+    def init(self):
+        super(cls_ref[0], self).init()
+        self._sim_instance = len(world.instances)
+        world.instances.append(self)
+        world.rec('init', label(self), self.state.value)
+
+    namespace['init'] = init
 
     if record_calls:
         # public control methods are overridden only to *record* the calls actually made (including
